@@ -159,7 +159,7 @@ PROPS['C12'] = dict(
         K('poulpy-cpu-ref', 'hal_defaults::scratch::verif_kani', ['c12_take_slice_aligned_contract', 'c12_take_slice_aligned_panics_iff_too_small',
           'c12_take_slice_default_u8', 'c12_take_slice_default_i64', 'c12_take_slice_default_f64', 'c12_take_slice_default_i128'], cls='complete', timeout=600,
           functions=['hal_defaults::scratch::take_slice_aligned', 'HalScratchDefaults::take_slice_default', 'HalScratchDefaults::scratch_available_default', 'HalScratchDefaults::scratch_from_bytes_default']),
-        V('vec_znx_ring'), V('vec_znx_normalize'), V('hal_glue'), V('hal_delegates'), V('vmp_fft64'), V('vmp_ntt120'), V('glwe_ops'), V('core_keyswitch'), V('core_extprod'), V('core_mul'), V('core_lwe_ksk'), V('core_relin'), V('core_encrypt_pk'), V('bdd_cmux'), V('core_decrypt'),
+        V('vec_znx_ring'), V('vec_znx_normalize'), V('hal_glue'), V('hal_delegates'), V('vmp_fft64'), V('vmp_ntt120'), V('glwe_ops'), V('core_keyswitch'), V('core_extprod'), V('core_mul'), V('core_lwe_ksk'), V('core_relin'), V('core_encrypt_pk'), V('core_lwe_encrypt'), V('bdd_cmux'), V('core_decrypt'),
         K('poulpy-cpu-ref', 'verif_kani::c12_window', [f'c12_window_{op}__n4' for op in ('normalize_assign', 'rotate_assign', 'automorphism_assign', 'mul_xp_minus_one_assign', 'lsh_assign', 'rsh_assign')],
           cls='bounded', timeout=1200, bound='N=4 (limb byte size 32: not a multiple of the 64-byte alignment), size 2',
           functions=['HAL traits VecZnx{Normalize,Rotate,Automorphism,MulXpMinusOne,Lsh,Rsh}Assign with a scratch of exactly the companion *_tmp_bytes; two runs with different scratch contents']),
@@ -331,7 +331,7 @@ PROPS['C01'] = dict(
     technique='Verus contracts: (i) on the integer statements sliced from the real NoiseInfos::target_limb_and_scale (where and at which scale the fresh error is injected); (ii) a dependency-flow contract on the real text of glwe_decrypt (poulpy-core/src/decryption/glwe.rs) over assumed flow contracts of the transform-domain HAL operations',
     level_text='Unbounded. (i) for every precision k in 1..=2^32 and every radix 1..=64 the error limb is ceil(k/base2k)-1 and the scale exponent is (limb+1)*base2k-k in [0, base2k): the error enters exactly at precision k. (ii) for every rank, limb count and ring degree, every limb of the decrypted plaintext depends on EXACTLY every active limb of every ciphertext column and every secret column: the phase is accumulated at the full ciphertext precision (no low limb is dropped before the final normalisation, which would cost more than the one unit of rounding the property allows), nothing of the scratch arena or of the previous plaintext contents reaches it, limbs beyond the plaintext size are untouched, no panic, and a scratch of exactly glwe_decrypt_tmp_bytes suffices.',
     level_note='(ii) is a statement about which inputs reach the output, not about values: that the accumulated phase equals message + error needs exact DFT products (C07) and is undecided, as are the encryption side, the public-key 1-norm bound, the sampling distribution and the LWE / compressed variants. The f64 exp2 of the exponent is dropped by the slice in (i).',
-    units=[V('noise', lemmas=['c01_target_limb_and_exponent']), V('core_decrypt')],
+    units=[V('core_lwe_encrypt'), V('noise', lemmas=['c01_target_limb_and_exponent']), V('core_decrypt')],
     trusted_base=VERUS_TRUST + CORE_TRUST + ['slice substitution ` as f64).exp2()` => `)`: scale == 2^e is not checked', 'usize::div_ceil assumed specification',
                   'R8 / subst in core_decrypt: `c0_big.data_mut().fill(0)` is read as zeroing every limb of the accumulator; the temporary `pt.to_mut()` is named'],
     assumptions=[],
@@ -343,7 +343,7 @@ PROPS['C06'] = dict(
     technique='Kani contract check of the real uniform sampling kernels with the ChaCha8 stream abstracted to a symbolic tape: range, bijection on the low bits, one draw per coefficient, column frame; Verus contracts on the real text of Source::next_u64n, znx_fill_uniform_ref and vec_znx_fill_uniform_ref (unbounded in N and limb count): which stream word lands in which coefficient',
     level_text='Unbounded (Verus): coefficient k of limb j of the filled column is the balanced digit of stream word pos + j*N + k, the source advances by exactly N*size words, no other limb is written -- the mask is a function of the mask seed and the stream position only. Complete in stream values and radix (1..=62/63), bounded in shape (N=2, size 2) (Kani): every mask limb lies in [-2^(b-1), 2^(b-1)) and is a bijective image of the low b bits of exactly one stream word, coefficients consume the stream in order (limb-major), other columns are untouched; next_u64n never rejects for power-of-two bounds.',
     level_note='Statistical claims (sigma of the error, uniformity of ChaCha8 itself) and seed separation of the encryption routines are not contract properties / not covered; Source::new is abstracted (cpuid).',
-    units=[V('sampling'), V('core_encrypt'),
+    units=[V('core_lwe_encrypt'), V('sampling'), V('core_encrypt'),
            K('poulpy-hal', 'verif_kani', ['c06_next_u64n_power_of_two', 'c06_vec_znx_fill_uniform__n2_size2'], cls='complete', timeout=900, functions=['Source::next_u64n', '<VecZnx as FillUniform>::fill_uniform']),
            K('poulpy-cpu-ref', 'verif_kani', ['c06_vec_znx_fill_uniform_ref__n2_size2'], cls='complete', timeout=900, functions=['znx_fill_uniform_ref', 'vec_znx_fill_uniform_ref'])],
     trusted_base=VERUS_TRUST + ['Source reduced to (seed, words drawn) in the Verus unit'],
